@@ -186,7 +186,7 @@ def settle(what, src, families, found, why, helper_ok, helper, answers_of, predi
     rec = dx.reconstruct(what, runs, {f: list(range(len(families[f]))) for f in families}, found, matches,
                          lambda r: answers[r] == nomap)
     if missing:
-        notes.append(PROBE_NOTE % (dx.FALLBACK_MARK, what + " " + ", ".join(missing), "; ".join(why)[:300].replace("*)", "* )"),
+        notes.append(PROBE_NOTE % (dx.FALLBACK_MARK, what + " " + ", ".join(missing), dx.comment_safe("; ".join(why)),
                                    len(runs)))
     if not helper_ok:
         notes.append("(* %s: %s has a shape the translator does not know; instead, the implementation's complete table was\n"
